@@ -18,6 +18,7 @@ EXPLANATION = (
     "or address reaches the serializer cone; (4) fixpoint — the load path restores sequences "
     "verbatim (no sort / dedup / reverse in the deserialization cone), so re-serialization reads "
     "the same values through the same ordered views."
+    " Later additions: the driver now distinguishes the per-field `__SerializeWith` wrappers (they used to collapse into one function), so the value type behind every ordered view is the field's own; the re-sort of optimize() is on every exit of the function."
 )
 NOT_DECIDED = "Byte-level determinism of rmp-serde itself (dependency); C08's field fidelity is assumed."
 
